@@ -87,9 +87,10 @@ def match_case(case):
     from chython import smiles, smarts
     try:
         t = smiles(case['t'])
-        t.kekule()
-        if case.get('thiele'):
-            t.thiele()
+        if not case.get('asis'):      # 'asis': the molecule as the reader leaves an aromatic spelling (bond storage order of the text)
+            t.kekule()
+            if case.get('thiele'):
+                t.thiele()
     except Exception as e:
         return {'skip': 1}
     q = smarts(case['q'])
@@ -257,6 +258,10 @@ def run(ck):
         for t in (f'[{sym}]', f'C[{sym}]C'):
             for q in ('[M]', '[A]', '[M;D2]', '[M,Se]'.replace('[M,Se]', '[Se,Tc,Ge,Sn]'), f'[{sym}]'):
                 mc.append({'key': f'{q}|{t}', 'q': q, 't': t, 'thiele': False})
+    # aromatic spellings taken as the reader leaves them (exocyclic double bonds written before / after the ring bonds of their atom)
+    for t in ['c1ccc[nH]c1=O', 'n1ccccc1=O', 'O=c1cccc[nH]1', 'c1cc(=O)cco1', 'O=c1ccocc1', 'c1cc(=S)cc[nH]1', 'Cn1ccccc1=O', 'c1ccc2c(c1)[nH]c(=O)[nH]2', 'O=c1[nH]cccn1', 'c1cnc(=O)[nH]c1']:
+        for q in ('[C;a]', '[C;z4]', '[C;z2]', '[C;z4]=O', '[C;a]=[O,S]', '[C;z2]=O', '[N;a]', '[N;z4;h1]', '[O,S;z2]'):
+            mc.append({'key': f'{q}|{t}|asis', 'q': q, 't': t, 'asis': True})
     mc = ck.select('matching', mc)
     if mc:
         res = vlib.pmap('checks.c08', 'match_case', mc)
